@@ -25,6 +25,9 @@ VARIANTS = {
                   cflags=["-O2", "-g", "-fno-omit-frame-pointer", "-fno-optimize-sibling-calls", "-fno-pie"],
                   ldflags=["-no-pie"]),
 }
+VARIANTS["cov"] = dict(cc="clang", cxx="clang++",
+                       cflags=["-O1", "-g", "-fprofile-instr-generate", "-fcoverage-mapping", "-fno-omit-frame-pointer", "-fno-optimize-sibling-calls", "-fno-pie"],
+                       ldflags=["-fprofile-instr-generate", "-no-pie"])     # source-based coverage, for `bin/reach` only
 WRAP = "-Wl,--wrap=malloc,--wrap=calloc,--wrap=realloc,--wrap=free,--wrap=rand"
 HOOK_DEFINE = "-DOPENFEC_VERIF"   # guard reserved for hooks in /repo (none exist; see MANIFEST.hooks)
 
